@@ -41,6 +41,7 @@ class Ledger : public ArduinoJson::Allocator {
   size_t byte_limit = (size_t)-1;  // refuse when live_bytes would exceed (capacity scenarios)
 
   std::function<void(size_t)> on_allocate;  // optional hook, called at the start of every allocate()
+  uint64_t* shared_clock = nullptr;  // when set, fault plans index the fallible calls of all ledgers sharing it
 
   ~Ledger() {
     // free whatever the library leaked so ASan stays quiet; the property decides if it is an error
@@ -144,12 +145,14 @@ class Ledger : public ArduinoJson::Allocator {
  private:
   bool should_fail(size_t size, size_t old) {
     fallible_calls++;
+    uint64_t idx = fallible_calls;
+    if (shared_clock) idx = ++*shared_clock;
     bool f = false;
     switch (mode) {
       case NONE: break;
-      case NTH: f = fallible_calls == fault_k; break;
-      case FROM: f = fallible_calls >= fault_k; break;
-      case SET: f = fallible_calls - 1 < fault_set.size() && fault_set[fallible_calls - 1]; break;
+      case NTH: f = idx == fault_k; break;
+      case FROM: f = idx >= fault_k; break;
+      case SET: f = idx - 1 < fault_set.size() && fault_set[idx - 1]; break;
     }
     if (!f && byte_limit != (size_t)-1 && live_bytes - old + size > byte_limit) f = true;
     if (f) refused++;
